@@ -148,6 +148,11 @@ JudgeC19(t, k) ==
              [first_diff |-> LET d == {i \in DOMAIN o.cpp.model.amps : i > Len(o.py.model.amps) \/ o.cpp.model.amps[i] # o.py.model.amps[i]}
                              IN IF d = {} THEN 0 ELSE CHOOSE i \in d : \A j \in d : i <= j,
               ncpp |-> Len(o.cpp.model.amps), npy |-> Len(o.py.model.amps)]),
+        \* the spline binning of every GSpline lineshape is one the input file states ([resonance, min, max, n] vs [min, max, n])
+        ChkD(t, "C19:spline-binning-is-that-of-the-input-file",
+             \A L \in {o.cpp.model.amps, o.py.model.amps} : \A i \in DOMAIN L : \A j \in DOMAIN L[i].splines :
+                 <<L[i].splines[j][2], L[i].splines[j][3], L[i].splines[j][4]>> \in RangeOf(k.input_splines),
+             [input |-> k.input_splines]),
         ChkD(t, "C19:real-and-imaginary-coefficients-have-distinct-names",
              \A i \in DOMAIN o.py.model.amps : o.py.model.amps[i].re_name # o.py.model.amps[i].im_name, [lang |-> "py"]),
         ChkD(t, "C19:real-and-imaginary-coefficients-have-distinct-names",
